@@ -1191,3 +1191,29 @@ Proof.
   destruct (link_feed s0 p w) as (_ & L4). destruct (view_link _ _ Hv0) as (_ & L5 & _).
   rewrite S9, L4, L5, L2. unfold e. lia.
 Qed.
+
+(* a freshly opened handle positioned at the start of a link whose first packets form an intact run *)
+Definition start_hyps (s : vfs) : bool :=
+  (v_hs s =? 0) && (v_rs s =? STREAMSET) && (0 <=? v_pno s) && (v_pcm s =? base_of s (v_link s)) &&
+  file_intactb (auto_tail s) s (v_pcm s).
+
+(* reading from the start: the first fetch delivers nothing and leaves the handle in sync at position 0 of the
+   link; from there C07_linear_read_positions_truthful and C09_link_read_accounts_for_every_sample apply *)
+Theorem read_from_start s :
+  start_hyps s = true ->
+  let s2 := make_ready s in
+  exists p r w s0,
+    stream (auto_tail s) s2 = p :: r /\ pk_W p = Some w /\
+    fetch (fetch_fuel s2) s2 = (1, feed s0 p w) /\
+    SyncInv (feed s0 p w) 0 /\ dec_pcmout (v_dec (feed s0 p w)) = 0 /\ v_pcm (feed s0 p w) = v_pcm s /\
+    IntactS (cur_link s) false 0 w r.
+Proof.
+  unfold start_hyps. intros H.
+  repeat (apply andb_prop in H; let H' := fresh "C" in destruct H as [H H']).
+  pose proof (file_intactb_ok (auto_tail s) s (v_pcm s) C (auto_tail_split s)) as (Hb0 & Hb1 & Hb01 & Hm0 & Hm1 & Hi & Hpl & Hin & Hre).
+  assert (Landed (auto_tail s) s (v_pcm s)) as Hland.
+  { unfold Landed. split; [lia|]. split; [left; lia|]. repeat (split; [assumption|]). split; [lia|]. split; [exact Hpl|].
+    split; [lia|]. split; [exact Hin|]. split; [exact Hre|lia]. }
+  pose proof (landed_fetch (auto_tail s) s (v_pcm s) Hland) as Hf. cbv zeta in Hf.
+  replace (v_pcm s - base_of s (v_link s)) with 0 in Hf by lia. exact Hf.
+Qed.
